@@ -8,6 +8,8 @@ open Lean BandVerif BandVerif.Oracle BandVerif.VStatus
 structure St where
   s : State
   nvals : Nat
+  /-- request id ↦ (status, result hex) that running its script must give (scripts whose outcome is known from their text) -/
+  expects : List (Nat × Nat × String) := []
 
 def resJson : Option Res → Json
   | none => Json.null
@@ -81,7 +83,12 @@ def step (st : St) (j : Json) : Except String (St × Json × List Fired) := do
       let r ← jget j "req"
       let req : Req := { vals := ← jnatList r "vals", minCount := ← jnat r "minCount", eids := ← jnatList r "eids",
                          height := ← jint r "height", time := ← jint r "time", clientId := ← jstr r "clientId", calldata := ← jstr r "calldata" }
-      let st' := { st with s := addRequest s req }
+      let exps := match j.getObjVal? "expect" with
+        | .ok e => match jnat e "status", jstr e "result" with
+          | .ok a, .ok b => [((addRequest s req).count, a, b)]
+          | _, _ => []
+        | _ => []
+      let st' := { st with s := addRequest s req, expects := st.expects ++ exps }
       pure (st', (dump st').setObjVal! "err" (js ""), [])
   | "report" =>
     let val ← jnat j "val"
@@ -106,6 +113,12 @@ def step (st : St) (j : Json) : Except String (St × Json × List Fired) := do
         | some req => req.vals.contains val && !(s.reports rid).contains val && decide (rid > s.lastExpired) && permOf eids req.eids && eids.Nodup && !eids.isEmpty
       if complete then
         fired := fired ++ [{ name := "complete_report_of_chosen_validator_rejected", detail := mkObj [("val", jn val), ("rid", jn rid), ("eids", jl (eids.map jn)), ("err", js ((jstr out "err").toOption.getD ""))] }]
+    -- monitor: an accepted report is recorded (the expiry pass deactivates the chosen validators without a recorded report)
+    if (← jstr out "err") == "" then
+      let (ireqs, _, _, _) ← parseDump out
+      let ir := ireqs.getD (rid - 1) { has := false, reporters := [], res := none }
+      if ir.has && !ir.reporters.contains val then
+        fired := fired ++ [{ name := "accepted_report_not_recorded", detail := mkObj [("val", jn val), ("rid", jn rid), ("reporters", jl (ir.reporters.map jn))] }]
     -- monitor: a request is queued for resolution at most once (a duplicate entry is resolved twice:
     -- two resolve events / signing requests / IBC packets for one request)
     let ipend ← jnatList out "pending"
@@ -153,6 +166,14 @@ def step (st : St) (j : Json) : Except String (St × Json × List Fired) := do
               fired := fired ++ [{ name := "expired_too_early_or_despite_enough_reports", detail := mkObj [("id", jn id)] }]
           else if !wasPending then
             fired := fired ++ [{ name := "resolved_without_min_count_reports", detail := mkObj [("id", jn id), ("status", jn new.status)] }]
+          else
+            -- the result is what running the oracle script gives (scripts with an outcome known from their text)
+            match st.expects.find? (·.1 == id) with
+            | some (_, est, eres) =>
+              if new.status ≠ est || new.result ≠ eres then
+                fired := fired ++ [{ name := "result_is_not_the_script_outcome", detail := mkObj [("id", jn id), ("status", jn new.status), ("result", js new.result),
+                  ("expectedStatus", jn est), ("expectedResult", js eres)] }]
+            | none => pure ()
           if !(new.clientId == req.clientId && new.calldata == req.calldata && new.askCount == req.vals.length &&
                new.minCount == req.minCount && new.requestTime == req.time && new.resolveTime == now &&
                new.ansCount == (s.reports id).length) then
